@@ -13,10 +13,14 @@ Tight(s, ks, cm) == Line(<<>>, s, IF ks = <<>> THEN <<>> ELSE <<SP>>, ks, [i \in
                          IF cm THEN <<SP>> ELSE <<>>, IF cm THEN Cmt ELSE <<>>, <<>>)
 Wide(s, ks)      == Line(<<SP, SP>>, s, IF ks = <<>> THEN <<>> ELSE <<TAB>>, ks, [i \in 1..(Len(ks) - 1) |-> <<SP, SP>>],
                          <<SP, TAB>>, Cmt, <<>>)
-Blanks == {Line(<<>>, <<>>, <<>>, <<>>, <<>>, <<>>, <<>>, <<>>), Line(<<SP, SP>>, <<>>, <<>>, <<>>, <<>>, <<>>, <<>>, <<>>),
+BlankLines == {Line(<<>>, <<>>, <<>>, <<>>, <<>>, <<>>, <<>>, <<>>), Line(<<SP, SP>>, <<>>, <<>>, <<>>, <<>>, <<>>, <<>>, <<>>),
            Line(<<>>, <<>>, <<>>, <<>>, <<>>, <<>>, Cmt, <<>>)}
 TightShapes == {Tight(s, ks, FALSE) : s \in {P1, P2}, ks \in XKw}
-Shapes == TightShapes \cup {Tight(s, ks, TRUE) : s \in {P1, P2}, ks \in XKw} \cup {Wide(s, ks) : s \in {P1, P2}, ks \in XKw} \cup Blanks
+\* blanks other than space / tab: IDEOGRAPHIC SPACE, NBSP, NNBSP, US, EM SPACE
+Odd(s, ks)       == Line(<<12288>>, s, IF ks = <<>> THEN <<>> ELSE <<160>>, ks, [i \in 1..(Len(ks) - 1) |-> <<8239, 31>>],
+                         <<8195>>, Cmt, <<>>)
+Shapes == TightShapes \cup {Tight(s, ks, TRUE) : s \in {P1, P2}, ks \in XKw} \cup {Wide(s, ks) : s \in {P1, P2}, ks \in XKw}
+          \cup {Odd(s, ks) : s \in {P1, P2}, ks \in XKw} \cup BlankLines
 Few == {Tight(s, ks, FALSE) : s \in {P1, P2}, ks \in {<<>>, <<K1>>, <<KStar>>, <<KCaret>>, <<KCaret, K2>>}} \cup {Line(<<>>, <<>>, <<>>, <<>>, <<>>, <<>>, Cmt, <<>>)}
 Seconds == {Tight(P1, ks, FALSE) : ks \in {<<>>, <<K1>>, <<KStar>>, <<KCaret>>, <<KCaret, K2>>, <<KStar, KCaret>>}}
            \cup {Tight(P2, <<KCaret>>, FALSE), Tight(P2, <<K1, KCaret>>, FALSE), Line(<<>>, <<>>, <<>>, <<>>, <<>>, <<>>, Cmt, <<>>)}
